@@ -16,6 +16,8 @@ type gen struct {
 	rng   *rand.Rand
 	named int
 	sc    *Scenario
+	pool  int    // 1-based index into enumStrPools forced for string enums (0 = random)
+	bound string // "", or "lo" / "hi" / "zero": forces the bound of ordered markers to that extreme of the field type
 }
 
 func basicT(src, kind string) *TypeX { return &TypeX{Kind: "basic", Basic: kind, Src: src} }
@@ -189,7 +191,7 @@ func (g *gen) complexValues(t *TypeX) []*SVal {
 	return []*SVal{c64Val(t, z, z), c64Val(t, nz, z), c64Val(t, z, nz), c64Val(t, o, z), c64Val(t, z, o), c64Val(t, 0x7fc00001, z), c64Val(t, z, 1)}
 }
 
-var emailPool = []string{"a@b.c", "user.name+tag@sub.example.com", "a@b", "user..name@ex.com", "user@ex≈°mple.com", "@b.c", "a@-b.c", strings.Repeat("a", 64) + "@b.co", strings.Repeat("a", 65) + "@b.co", "us\x7fer@example.com"}
+var emailPool = []string{"user@a.b.c.d.example.com", "user@mail.eu.example.co.uk", "u@a.b.c.d.e.f.g.h", "a@b.c", "user.name+tag@sub.example.com", "a@b", "user..name@ex.com", "user@ex≈°mple.com", "@b.c", "a@-b.c", strings.Repeat("a", 64) + "@b.co", strings.Repeat("a", 65) + "@b.co", "us\x7fer@example.com"}
 var urlPool = []string{"http://example.com", "mailto:a@b.c", "mailto:", "http://{host}", "https://[::1]/", "ftp://", "HTTP://x.y", "http://ex ample.com", "file:/etc", "xmpp://a", "gopher://a", "http:/x"}
 var uuidPool = []string{"550e8400-e29b-41d4-a716-446655440000", "FFFFFFFF-FFFF-FFFF-FFFF-FFFFFFFFFFFF", "F47AC10B-58CC-4372-A567-0E02B2C3D479", "f47ac10b-58cc-4372-A567-0e02b2c3d479", "00000000-0000-0000-0000-000000000000", "550e8400-e29b-61d4-a716-446655440000", "550e8400-e29b-41d4-c716-446655440000", "550e8400-e29b-41d4-a716-44665544000\x15", "550e8400e29b41d4a716446655440000"}
 var alphaPool = []string{"", "abc", "ABCxyz", "abc1", "ab c", "√©", "Ren\xe9", "\xc3", "z{"}
@@ -197,6 +199,18 @@ var numericPool = []string{"", "0", "0123456789", "12a", "-1", "1.0", "Ÿ°Ÿ¢", "Ô
 var ipPool = []string{"192.168.0.1", "::1", "::ffff:1.2.3.4", "1.2.3", "abc", "1.2.3.4 ", "2001:db8::1", "0.0.0.0", "256.1.1.1", "fe80::1%eth0", "", "01.2.3.4"}
 
 func runeString(n int, unit string) string { return strings.Repeat(unit, n) }
+
+// trimRunes cuts s after k code points as counted by utf8.RuneCountInString (invalid bytes count one each)
+func trimRunes(s string, k int) string {
+	n := 0
+	for i := range s {
+		if n == k {
+			return s[:i]
+		}
+		n++
+	}
+	return s
+}
 
 func (g *gen) stringValues(t *TypeX, ms []Marker) []*SVal {
 	set := map[string]bool{"": true, "a": true, "√©": true, "\xff": true, "hello world": true}
@@ -220,6 +234,19 @@ func (g *gen) stringValues(t *TypeX, ms []Marker) []*SVal {
 					set[runeString(k-2, "a")+"√©\xc3"] = true
 				}
 			}
+			// ill-formed sequences: a multi-byte lead byte followed by ASCII / another lead byte, overlong and
+			// surrogate forms ‚Äî every such byte is one code point (U+FFFD) for utf8.RuneCountInString
+			for _, k := range []int{n - 1, n, n + 1} {
+				if k < 3 {
+					continue
+				}
+				set[runeString(k-2, "a")+"\xe2a"] = true
+				set[runeString(k-3, "a")+"\xf0ab"] = true
+				set[trimRunes(strings.Repeat("\xe2ab", k), k)] = true
+				set[trimRunes(strings.Repeat("\xc0\x80z", k), k)] = true
+				set[trimRunes(strings.Repeat("\xed\xa0\x80", k), k)] = true
+				set[trimRunes(strings.Repeat("√©\xe2‚Ç¨", k), k)] = true
+			}
 			// byte length n with fewer code points
 			if n >= 2 {
 				set[runeString(n/2, "√©")+runeString(n%2, "a")] = true
@@ -236,6 +263,8 @@ func (g *gen) stringValues(t *TypeX, ms []Marker) []*SVal {
 					set[tr[:len(tr)-1]] = true
 				}
 				set[" "+tr] = true
+				set[strings.Join(strings.Fields(tr), " ")] = true // blanks inside an item are significant
+				set[strings.ReplaceAll(tr, " ", "  ")] = true
 			}
 		case "email":
 			for _, s := range emailPool {
@@ -372,18 +401,32 @@ func (g *gen) ordMarker(id string, t *TypeX) Marker {
 		bs = floatBounds(u.Basic)
 	} else {
 		bs = g.intBounds(u.Basic)
+		lo, hi := intRange(u.Basic)
+		switch g.bound {
+		case "lo":
+			return Marker{ID: id, Expr: lo.String(), HasExpr: true}
+		case "hi":
+			return Marker{ID: id, Expr: hi.String(), HasExpr: true}
+		}
+	}
+	if g.bound == "zero" {
+		return Marker{ID: id, Expr: "0", HasExpr: true}
 	}
 	return Marker{ID: id, Expr: bs[g.rng.Intn(len(bs))], HasExpr: true}
 }
 
-var enumStrPools = [][]string{{"a", "b", "c"}, {"red", "green", "blue"}, {"A", "a"}, {"x"}, {"hello world", "x y"}, {"caf√©", "Êó•Êú¨"}, {"a", "a", "b"}, {"1", "2"}, {"pending", "active", "Active", "done", "x", "y", "z", "w"}}
+var enumStrPools = [][]string{{"New  York", "Boston"}, {"a\tb", "a b"}, {"x   y  z"}, {"a", "b", "c"}, {"red", "green", "blue"}, {"A", "a"}, {"x"}, {"hello world", "x y"}, {"caf√©", "Êó•Êú¨"}, {"a", "a", "b"}, {"1", "2"}, {"pending", "active", "Active", "done", "x", "y", "z", "w"}}
 
 func (g *gen) enumMarker(t *TypeX) Marker {
 	u := t.Underlying()
 	var items []string
 	switch {
 	case u.Basic == "String":
-		items = append(items, enumStrPools[g.rng.Intn(len(enumStrPools))]...)
+		if g.pool > 0 {
+			items = append(items, enumStrPools[(g.pool-1)%len(enumStrPools)]...)
+		} else {
+			items = append(items, enumStrPools[g.rng.Intn(len(enumStrPools))]...)
+		}
 	case strings.HasPrefix(u.Basic, "Float"):
 		bs := floatBounds(u.Basic)
 		for i := 0; i < 1+g.rng.Intn(4); i++ {
@@ -445,7 +488,7 @@ func (g *gen) marker(rule string, t *TypeX) Marker {
 	case "gt", "gte", "lt", "lte":
 		return g.ordMarker(rule, t)
 	case "minlength", "maxlength", "length":
-		return Marker{ID: rule, Expr: []string{"0", "1", "2", "3", "5", "10"}[g.rng.Intn(6)], HasExpr: true}
+		return Marker{ID: rule, Expr: []string{"0", "1", "2", "3", "5", "10", "31", "32", "40", "64"}[g.rng.Intn(10)], HasExpr: true}
 	case "minitems", "maxitems":
 		return Marker{ID: rule, Expr: []string{"0", "1", "2", "3", "6"}[g.rng.Intn(5)], HasExpr: true}
 	case "enum":
@@ -1006,6 +1049,31 @@ func (g *gen) famC08(id string, count int) []*Scenario {
 		sc.Values["E"] = g.structValues(d, 4)
 		out = append(out, sc)
 	}
+	// every guarded rule once as a struct-level marker over a struct with one field of every documented kind:
+	// the factory must accept exactly the fields the rule is documented for, or the output does not compile
+	{
+		kinds := []*TypeX{basicT("int", "Int"), basicT("int8", "Int8"), basicT("uint16", "Uint16"), basicT("float64", "Float64"), basicT("float32", "Float32"),
+			stringT, boolT, collTypes[0], collTypes[len(collTypes)-1], refTypes[0], basicT("uintptr", "Uintptr"), basicT("rune", "Int32"), basicT("byte", "Uint8")}
+		kinds = append(kinds, collTypes[1:len(collTypes)-1]...)
+		rules := []string{"required", "gt", "gte", "lt", "lte", "minlength", "maxlength", "length", "minitems", "maxitems", "email", "url", "uuid", "alpha", "numeric", "ipv4", "ipv6"}
+		for ri, r := range rules {
+			sc := newScenario(fmt.Sprintf("%sm%02d", id, ri))
+			g.sc = sc
+			d := &Decl{Name: "M"}
+			switch r {
+			case "gt", "gte", "lt", "lte":
+				d.Markers = []Marker{{ID: r, Expr: "1", HasExpr: true}}
+			default:
+				d.Markers = []Marker{g.marker(r, stringT)}
+			}
+			for i, t := range kinds {
+				d.Fields = append(d.Fields, &Field{Names: []string{fmt.Sprintf("F%d", i)}, Type: t})
+			}
+			sc.Decls = []*Decl{d}
+			sc.Values["M"] = g.structValues(d, 2)
+			out = append(out, sc)
+		}
+	}
 	for s := 0; s < count; s++ {
 		sc := newScenario(fmt.Sprintf("%s%03d", id, s))
 		g.sc = sc
@@ -1089,5 +1157,22 @@ func (g *gen) corpusC07(id string) []*Scenario {
 	g.sc = sc
 	sc.Decls = []*Decl{d}
 	sc.Values["K7"] = g.structValues(d, 4)
-	return []*Scenario{sc}
+	// clean shape: rules only at the second nesting level, the middle level carries no marker of its own
+	d2 := &Decl{Name: "Deep", Fields: []*Field{
+		{Names: []string{"Customer"}, Nested: []*Field{
+			{Names: []string{"Nick"}, Type: stringT},
+			{Names: []string{"Address"}, Nested: []*Field{
+				{Names: []string{"City"}, Type: stringT, Markers: []Marker{req}},
+				{Names: []string{"Zip"}, Type: stringT, Markers: []Marker{{ID: "numeric"}}}}}}},
+		{Names: []string{"Shipping"}, Nested: []*Field{
+			{Names: []string{"Box"}, Nested: []*Field{{Names: []string{"Weight"}, Type: basicT("int", "Int"), Markers: []Marker{{ID: "gt", Expr: "0", HasExpr: true}}}}},
+			{Names: []string{"Label"}, Type: stringT, Markers: []Marker{req}}}},
+		{Names: []string{"L1"}, Nested: []*Field{{Names: []string{"L2"}, Nested: []*Field{{Names: []string{"L3"}, Nested: []*Field{
+			{Names: []string{"Leaf"}, Type: stringT, Markers: []Marker{{ID: "minlength", Expr: "2", HasExpr: true}}}}}}}}},
+	}}
+	sc2 := newScenario(id + "deep")
+	g.sc = sc2
+	sc2.Decls = []*Decl{d2}
+	sc2.Values["Deep"] = g.structValues(d2, 8)
+	return []*Scenario{sc, sc2}
 }
